@@ -204,3 +204,51 @@ func VerifC17_ExpansionWhateverTheEntryPath() {
 		}
 	}
 }
+
+// C17 under concurrency (every lookup gets the full expansion, whoever cached
+// the record): two lookups miss the same provider at the same time, or a lookup
+// misses while a refresh is storing that provider. Each of them returns the
+// provider followed by the context-level set for the queried context ID (which
+// overrides the chain-level set here) — never the chain-level expansion of a
+// record stored without its per-context index.
+func VerifC17_ConcurrentMisses() {
+	pid := peer.ID("M")
+	x1, x2 := peer.AddrInfo{ID: "X"}, peer.AddrInfo{ID: "Y"}
+	rec := &model.ProviderInfo{AddrInfo: peer.AddrInfo{ID: pid}, LastAdvertisementTime: c06time(1)}
+	rec.ExtendedProviders = &model.ExtendedProviders{
+		Providers: []peer.AddrInfo{x1}, Metadatas: [][]byte{{0xc1}},
+		Contextual: []model.ContextualExtendedProviders{{ContextID: "ctx", Override: true, Providers: []peer.AddrInfo{x2}, Metadatas: [][]byte{{0xc2}}}},
+	}
+	src := &c17src{rec: rec}
+	pc := &ProviderCache{sources: []ProviderSource{src}, write: make(map[peer.ID]*cacheInfo), writeLock: make(chan struct{}, 1), ttl: c06ttl()}
+	verif_SetClock(0)
+	ctxID, md := []byte("ctx"), []byte{0xdd}
+	want := c17spec(rec, pid, ctxID, md)
+	lookup := func() {
+		res, err := pc.GetResults(context.Background(), pid, ctxID, md)
+		verif_Assert(err == nil && len(res) == len(want), "every lookup gets the full expansion for its context ID")
+		for i := range want {
+			if i < len(res) {
+				verif_Assert(res[i].Provider != nil && res[i].Provider.ID == want[i].pid && bytes.Equal(res[i].Metadata, want[i].md), "results follow the expansion rules whoever cached the record")
+			}
+		}
+	}
+	done := make(chan struct{}, 2)
+	other := verif_Bool("otherWriterIsARefresh")
+	go func() {
+		if other {
+			_ = pc.Refresh(context.Background())
+		} else {
+			lookup()
+		}
+		done <- struct{}{}
+	}()
+	go func() {
+		lookup()
+		done <- struct{}{}
+	}()
+	<-done
+	<-done
+	verif_Reach("both returned")
+	lookup() // and a later, uncontended lookup agrees
+}
